@@ -143,6 +143,53 @@ TrReopen == IsEv("Reopen") /\ Cur.res = "Ok" /\ Reopen /\ StOk /\ Adv
 \* a crash of the harness-driven process between operations (C03 traces): volatile state is lost
 TrCrash  == IsEv("Crash") /\ Crash /\ StOk /\ Adv
 
+(***************************************************************************)
+(* Crash / power-loss images and injected I/O faults (C03, C04, C14).      *)
+(* An Image record is the observation of the directory image of one crash  *)
+(* point of the NEXT call in the trace (its `op`), reopened by the real    *)
+(* store.  It is judged against the specification state before that call   *)
+(* (old) and the state the call leads to (new): NomtApi!CommitCrashes.     *)
+(***************************************************************************)
+Obs(st, m, sq) ==
+    /\ st.open /\ ~st.poisoned
+    /\ R("kv") \/ \A k \in Keys : st.kv[k] = m[k]
+    /\ R("kv") \/ st.probesOk
+    /\ R("seqn") \/ st.seqn = sq
+    /\ R("root") \/ st.rootOk
+
+NewMapOf(o) ==
+    IF o.a \in {"Commit", "TryCommit"} THEN Apply(kv, fin[o.f].w)
+    ELSE IF o.a \in {"OverlayCommit", "OverlayTryCommit"} THEN Apply(kv, ovl[o.o].w)
+    ELSE IF o.a = "Rollback" THEN Apply(kv, Traceback(memLog, o.n))
+    ELSE kv
+NewSeqnOf(o) == IF o.a = "Reopen" THEN seqn ELSE seqn + 1
+\* for a reopen of a closed store the reference state is the durable image
+OldMapOf(o) == IF o.a = "Reopen" THEN disk.kv ELSE kv
+OldSeqnOf(o) == IF o.a = "Reopen" THEN disk.seqn ELSE seqn
+
+ImageOldOrNew(r, allowOld) ==
+    /\ r.res = "Ok"
+    /\ R("cont") \/ r.contOk
+    /\ \/ allowOld /\ Obs(r.st, OldMapOf(r.op), OldSeqnOf(r.op))
+       \/ r.op.a # "Reopen" /\ Obs(r.st, NewMapOf(r.op), NewSeqnOf(r.op))
+
+TrImage ==
+    /\ IsEv("Image")
+    /\ ImageOldOrNew(Cur, ~Cur.afterReturn \/ Cur.op.a = "Reopen")
+    /\ UNCHANGED <<vars, roots>> /\ Adv
+
+\* C14: an injected failure is reported, poisons the handle, later commits are refused, and the
+\* directory reopens to the old or the new state (NomtApi!CommitFails).
+TrFault ==
+    /\ IsEv("Fault")
+    /\ Cur.injected =>
+          /\ Cur.isErr
+          /\ Cur.poisoned /\ Cur.next = "Poisoned"
+          /\ ImageOldOrNew([res |-> Cur.reopen.res, contOk |-> Cur.reopen.contOk, st |-> Cur.reopen.st,
+                            op |-> Cur.op], TRUE)
+    /\ (~Cur.injected) => Cur.res = "Ok"
+    /\ UNCHANGED <<vars, roots>> /\ Adv
+
 TraceInit == Init /\ l = 1 /\ roots = [m \in Maps |-> 0]
 
 TraceNext ==
@@ -150,7 +197,7 @@ TraceNext ==
     \/ TrBegin \/ TrBeginRefused \/ TrDropSession \/ TrFinish \/ TrDropFinished
     \/ TrCommit \/ TrTryCommit \/ TrIntoOverlay \/ TrDropOverlay
     \/ TrOverlayCommit \/ TrOverlayTryCommit \/ TrRollback
-    \/ TrClose \/ TrReopen \/ TrCrash
+    \/ TrClose \/ TrReopen \/ TrCrash \/ TrImage \/ TrFault
 
 TraceSpec == TraceInit /\ [][TraceNext]_tvars
 
